@@ -160,6 +160,18 @@ func c19Build(c *Ctx, h *c19Hist) (d *c19DB, skip string) {
 			return nil, "history-call-failed" // C01/C09 territory
 		}
 	}
+	// (reads can trigger seek compactions, so the comparison with the plain map comes before settling)
+	got, err := crDumpDB(db)
+	if err != nil || len(got) != len(d.m) {
+		crCall(crWdTimeout, db.Close)
+		return nil, "pre-check-mismatch" // the DB already disagrees with the plain map: C01's business
+	}
+	for k, v := range d.m {
+		if got[k] != v {
+			crCall(crWdTimeout, db.Close)
+			return nil, "pre-check-mismatch"
+		}
+	}
 	// settle: storage must hold exactly the live files (no obsolete table that Recover would resurrect)
 	settled := false
 	for try := 0; try < 4 && !settled; try++ {
@@ -219,17 +231,6 @@ func c19Build(c *Ctx, h *c19Hist) (d *c19DB, skip string) {
 	}
 	d.mem = append(dump.Mem, dump.Frozen...)
 	d.mfd = storage.FileDesc{Type: storage.TypeManifest, Num: dump.ManifestNum}
-	got, err := crDumpDB(db)
-	if err != nil || len(got) != len(d.m) {
-		crCall(crWdTimeout, db.Close)
-		return nil, "pre-check-mismatch" // the DB already disagrees with the plain map: C01's business
-	}
-	for k, v := range d.m {
-		if got[k] != v {
-			crCall(crWdTimeout, db.Close)
-			return nil, "pre-check-mismatch"
-		}
-	}
 	if err, hung := crCall(crWdTimeout, db.Close); err != nil || hung {
 		return nil, "close-failed"
 	}
@@ -296,7 +297,7 @@ func runC19(c *Ctx) {
 	defer crWorkerCheckpoint(c)()
 	c.Res.Rule = "settled DBs from random histories (150-400 puts/deletes/batches/large batches/CompactRange/reopen over 20-70 keys incl. the empty key and 0x00/0xff runs; tiny buffers so that several levels exist; the last writes stay in the journal; five comparers; bloom filter on/off; snappy on/off), closed once storage holds exactly the live files. Part A: manifest deleted / CURRENT cleared / manifest truncated at a random offset / manifest replaced by garbage, then leveldb.Recover: must succeed, full scan and every Get equal the plain map, then the DB is used (writes, CompactRange, Close) and reopened with Open with the expected contents. Part B: additionally 1-3 data blocks of live tables get one byte flipped (block boundaries from table.Reader.OffsetOf): Recover must succeed; every returned pair was written for that key at some time; every key whose newest version (value or tombstone, anywhere in the DB) lies outside the damaged blocks is returned with exactly that version; Get agrees with the scan. One evaluation = one recovered image; non-trivial = the DB had >= 2 tables and deletions (part B: at least one entry was in a damaged block); distinct by (history seed, variant, damage)."
 	once := &crSigOnce{}
-	n := c.Scale(700, 20000)
+	n := c.Scale(4000, 120000)
 	par := runtime.GOMAXPROCS(0)
 	if par > 16 {
 		par = 16
@@ -452,9 +453,9 @@ func c19Recover(c *Ctx, once *crSigOnce, d *c19DB, img *stor.Stor, cs *c19Case, 
 	}
 	// D19: a damaged table is rebuilt with the caller's comparer and filter instead of the internal ones;
 	// whether Recover went through that rebuild path is read off the storage operations.
-	rebuilt := func() bool { // a rebuilt table is renamed over the damaged one
+	rebuilt := func() bool { // a rebuilt table is written to a temporary file and renamed over the damaged one
 		for _, op := range img.Ops() {
-			if op.Kind == stor.OpRename {
+			if op.Kind == stor.OpRename || (op.Kind == stor.OpCreate && op.Fd.Type == storage.TypeTemp) {
 				return true
 			}
 		}
